@@ -63,6 +63,10 @@ pub trait DynTarget: Sync + Send {
 	fn clear_poison(&self) -> bool {
 		false
 	}
+	/// `lockable::RawLock::poison` (single locks only); false = not applicable
+	fn kill(&self) -> bool {
+		false
+	}
 }
 
 // ---------------------------------------------------------------------------
@@ -362,6 +366,10 @@ impl DynTarget for M {
 	fn debug_fmt_to(&self, w: &mut dyn std::fmt::Write) -> std::fmt::Result {
 		write!(w, "{:?}", self)
 	}
+	fn kill(&self) -> bool {
+		happylock::lockable::RawLock::poison(self);
+		true
+	}
 }
 
 impl DynTarget for R {
@@ -418,6 +426,10 @@ impl DynTarget for R {
 	}
 	fn debug_fmt_to(&self, w: &mut dyn std::fmt::Write) -> std::fmt::Result {
 		write!(w, "{:?}", self)
+	}
+	fn kill(&self) -> bool {
+		happylock::lockable::RawLock::poison(self);
+		true
 	}
 }
 
@@ -578,6 +590,10 @@ macro_rules! pois_target {
 			}
 			fn clear_poison(&self) -> bool {
 				Poisonable::clear_poison(self);
+				true
+			}
+			fn kill(&self) -> bool {
+				happylock::lockable::RawLock::poison(self);
 				true
 			}
 		}
